@@ -34,12 +34,12 @@ func (c *Ctx) rulePrune(pkgs ...string) {
 				if !ok || len(r.Results) != 1 {
 					return
 				}
-				if cv, isC := constBool(r.Results[0]); isC && cv {
+				if cv, isC := c.walkContinues(w, r.Results[0]); isC && cv {
 					return
 				}
 				prunes++
 				guards := P.BlockGuards(b)
-				if _, isC := constBool(r.Results[0]); !isC {
+				if _, isC := c.walkContinues(w, r.Results[0]); !isC && !w.Visitor {
 					// `return !pred(...)`: the walk is pruned exactly when the returned expression is false
 					guards = append(append([]Lit{}, guards...), literals(P.condFormula(r.Results[0], 0), false)...)
 				}
@@ -112,11 +112,11 @@ func (c *Ctx) rulePruneGate(pkgs ...string) {
 				if !ok || len(r.Results) != 1 {
 					return
 				}
-				if cv, isC := constBool(r.Results[0]); isC && cv {
+				if cv, isC := c.walkContinues(w, r.Results[0]); isC && cv {
 					return
 				}
 				guards := P.BlockGuards(b)
-				if _, isC := constBool(r.Results[0]); !isC {
+				if _, isC := c.walkContinues(w, r.Results[0]); !isC && !w.Visitor {
 					guards = append(append([]Lit{}, guards...), literals(P.condFormula(r.Results[0], 0), false)...)
 				}
 				for _, l := range P.Expand(guards) {
@@ -328,18 +328,106 @@ func (c *Ctx) classifyStore(w *walkInfo, fn *ssa.Function, st *ssa.Store) (strin
 
 func isAppendOfCell(P *Program, v ssa.Value, cell *ssa.Alloc) bool {
 	call, ok := v.(*ssa.Call)
-	if !ok {
+	if !ok || cell == nil {
 		return false
 	}
-	b, ok := call.Call.Value.(*ssa.Builtin)
-	if !ok || b.Name() != "append" {
+	isCell := func(a ssa.Value) bool {
+		u, ok := a.(*ssa.UnOp)
+		return ok && u.Op == token.MUL && P.cellOf(u.X) == cell
+	}
+	if b, ok := call.Call.Value.(*ssa.Builtin); ok {
+		return b.Name() == "append" && isCell(call.Call.Args[0])
+	}
+	// x = extend(x, ...): a product helper every result of which starts with the slice it was given
+	callee := call.Call.StaticCallee()
+	if callee == nil || !P.IsProductFunc(callee) || len(callee.Params) != len(call.Call.Args) {
 		return false
 	}
-	u, ok := call.Call.Args[0].(*ssa.UnOp)
-	if !ok || u.Op != token.MUL {
+	for i, a := range call.Call.Args {
+		if isCell(a) && extendsParam(P, callee, i, 0) {
+			return true
+		}
+	}
+	return false
+}
+
+// extendsParam: every value fn returns is its i-th parameter (a slice), possibly with elements appended.
+func extendsParam(P *Program, fn *ssa.Function, i int, depth int) bool {
+	if depth > 3 || len(fn.Blocks) == 0 || i >= len(fn.Params) {
 		return false
 	}
-	return P.cellOf(u.X) == cell && cell != nil
+	prm := fn.Params[i]
+	var ext func(v ssa.Value, d int) bool
+	ext = func(v ssa.Value, d int) bool {
+		if d > 12 {
+			return false
+		}
+		if v == ssa.Value(prm) {
+			return true
+		}
+		switch x := v.(type) {
+		case *ssa.Phi:
+			for _, e := range x.Edges {
+				if e != v && !ext(e, d+1) {
+					return false
+				}
+			}
+			return true
+		case *ssa.UnOp: // a local copy of the parameter that is only ever extended
+			if x.Op != token.MUL {
+				return false
+			}
+			cell := P.cellOf(x.X)
+			if cell == nil || cell.Parent() != fn {
+				return false
+			}
+			vals, _, escaped := P.CellStores(cell)
+			if escaped || len(vals) == 0 {
+				return false
+			}
+			for _, sv := range vals {
+				if u, ok := sv.(*ssa.UnOp); ok && u.Op == token.MUL && P.cellOf(u.X) == cell {
+					continue
+				}
+				if c2, ok := sv.(*ssa.Call); ok {
+					if b, isB := c2.Call.Value.(*ssa.Builtin); isB && b.Name() == "append" {
+						if u, ok := c2.Call.Args[0].(*ssa.UnOp); ok && u.Op == token.MUL && P.cellOf(u.X) == cell {
+							continue
+						}
+					}
+				}
+				if !ext(sv, d+1) {
+					return false
+				}
+			}
+			return true
+		case *ssa.Call:
+			if b, ok := x.Call.Value.(*ssa.Builtin); ok {
+				return b.Name() == "append" && ext(x.Call.Args[0], d+1)
+			}
+			callee := x.Call.StaticCallee()
+			if callee == nil || !P.IsProductFunc(callee) || len(callee.Params) != len(x.Call.Args) {
+				return false
+			}
+			for j, a := range x.Call.Args {
+				if ext(a, d+1) && extendsParam(P, callee, j, depth+1) {
+					return true
+				}
+			}
+		}
+		return false
+	}
+	n := 0
+	ok := true
+	allInstrs(fn, func(_ *ssa.BasicBlock, ins ssa.Instruction) {
+		if r, isRet := ins.(*ssa.Return); isRet {
+			n++
+			if len(r.Results) != 1 || !ext(r.Results[0], 0) {
+				ok = false
+			}
+		}
+	})
+	return ok && n > 0
 }
 
 // dedupMapPerFile: the updated map is created (make) inside the per-file scope of the walk.
@@ -637,7 +725,10 @@ func (c *Ctx) ruleIter(pkgs ...string) {
 					key := tn + "." + st.Field(fa.Field).Name()
 					nIdx++
 					cons := FuncName(fn) + "#" + key + "[" + cst.Value.ExactString() + "]"
-					if reason, ok := allowed[key]; ok {
+					// (the names of a field declaration may be indexed only where the declaration is a method receiver:
+					// `a, b T // @mutable` declares two fields)
+					isRecv := strings.Contains(P.DescDeep(fa.X), "go/ast.FuncDecl.Recv")
+					if reason, ok := allowed[key]; ok && (key != "go/ast.Field.Names" || isRecv) {
 						// must be guarded by a length test on the same list
 						guarded := false
 						for _, l := range P.BlockGuards(b) {
